@@ -204,6 +204,8 @@ def run(ctx):
                           "server_plans": {}, "reads": [[[2500, 50]], [[2999, 1], [2100, 700]], [[1500, 10]]], "crafted": []})
         for i in range(B(50, 1500)):
             scenarios.append(fc.gen_badguess_scenario(ctx.rng, faults=(i % 2 == 1)))
+        for i in range(B(25, 800)):
+            scenarios.append(fc.gen_hashdamage_scenario(ctx.rng))
         if ctx.tier == "thorough" and not fc.corpus_only():
             scenarios.append(fc.big_badguess_scenario())
         late.append(fc.gen_late_error_scenario(None, canonical=True))      # corpus: minimised history
